@@ -542,3 +542,8 @@ func rootKinds(tb []*cm.RootBlock) string {
 	}
 	return fmt.Sprint(k)
 }
+
+// normaliseBlockWS is the strict block-whitespace normalisation: whitespace-only
+// text between two block-level tags of the renderer's vocabulary (or at either
+// end of the document) is deleted, never inside <pre>; nothing else changes.
+func normaliseBlockWS(h []byte) []byte { return normaliseLayout(h, true) }
